@@ -105,13 +105,17 @@ def execIo (e : Env) (next : Nat) (s : RefState) : IoKind × Nat × Nat → RefS
   | (.outAsync, k, o) => { s with pos := next, outputs := upd s.outputs o (s.regs k) }
   | (.inSync, k, i) =>
     if e.inValid i then
-      { s with pos := next, regs := upd s.regs k (e.inputs i), inRecv := upd s.inRecv i true,
-               deferred := if i ∈ s.deferred then s.deferred else s.deferred ++ [i] }
+      if s.inRecv i then s        -- the previous transfer on this port is not over: wait
+      else
+        { s with pos := next, regs := upd s.regs k (e.inputs i), inRecv := upd s.inRecv i true,
+                 deferred := if i ∈ s.deferred then s.deferred else s.deferred ++ [i] }
     else { s with inRecv := upd s.inRecv i false }
   | (.outSync, k, o) =>
-    let s1 := { s with outputs := upd s.outputs o (s.regs k) }
-    if e.outRecv o then { s1 with outValid := upd s.outValid o false, pos := next }
-    else { s1 with outValid := upd s.outValid o true }
+    if s.outValid o = false ∧ e.outRecv o = true then s     -- stale recv of the previous transfer: wait
+    else
+      let s1 := { s with outputs := upd s.outputs o (s.regs k) }
+      if e.outRecv o then { s1 with outValid := upd s.outValid o false, pos := next }
+      else { s1 with outValid := upd s.outValid o true }
 
 /-- the effect of one source line -/
 def execLine (c : SecCtx) (e : Env) (l : Line) (s : RefState) : Option RefState :=
